@@ -105,7 +105,8 @@ class SimplePatternMatcher(PatternMatcher):
                     f"Value {value.name} has shape {numpy_value.shape}, expecting {expected_shape}."
                 )
             if not all(
-                math.isclose(
+                isinstance(numpy_value.item(i), (int, float))
+                and math.isclose(
                     numpy_value.item(i),
                     pattern_constant_value[i],
                     rel_tol=pattern_constant._rel_tol,
@@ -124,7 +125,8 @@ class SimplePatternMatcher(PatternMatcher):
                 f"Value {value.name} is not a scalar, expecting {pattern_constant_value}.",
             )
 
-        if not math.isclose(
+        # A constant that is not a number (e.g. a string) does not match a numeric constant.
+        if not isinstance(numpy_value.item(), (int, float)) or not math.isclose(
             numpy_value.item(),
             pattern_constant_value,
             rel_tol=pattern_constant._rel_tol,
